@@ -1,8 +1,8 @@
 """C11 - extra corpus: twins for the kinds of refactoring the rules are robust against (constant collections hoisted to
 module / class level, extracted helpers, flags and temporaries, inverted tests with early exits, conditional expressions
 instead of if/else - also for the *callee* -, comprehensions instead of loops, single-return caches, renamed private
-attributes, delegating builder helpers, keyword arguments) and mutants for every restructured rule, several of them
-applied on top of a refactored shape."""
+attributes, delegating builder helpers, keyword arguments, token texts through temporaries / inlined node helpers, reshaped
+literal encoders) and mutants for every restructured rule, several of them applied on top of a refactored shape."""
 
 from selftest.corpus import M, T
 
@@ -296,3 +296,45 @@ M("C11", "unquote-local-closure-strip", F, "", "", "C11.R1", edits=[
 _PAIR_KIND = PAIR_LOOP.replace('                            if x.type == "STRING":\n', '                            kind = x.type\n                            is_string = "STRING" == kind\n                            if is_string:\n')
 T("C11", "twin-unquote-type-temp", F, PAIR_LOOP, _PAIR_KIND)
 M("C11", "unquote-type-temp-dropped", F, PAIR_LOOP, _PAIR_KIND.replace("value.append(str(x)[1:-1])", "value.append(str(x))"), "C11.R1")
+
+# ------------------------------------------------------------------------------------------------ R6: string literals, builder side
+# own part: the text of every STRING token built in code is value_to_string(<value>) on every definition that reaches it
+STEP_APPEND = '            val.append(Tree("string", [Token("STRING", value_to_string(value))]))\n        self.steps.append(Tree(option, val))\n'
+TERM_APPEND = '            val.append(Tree("string", [Token("STRING", value_to_string(value))]))\n        self.termination.append(Tree(option, val))\n'
+T("C11", "twin-step-token-text-temps", F, STEP_APPEND,
+  '            text = value_to_string(value)\n            token = Token("STRING", text)\n            val.append(Tree("string", [token]))\n        self.steps.append(Tree(option, val))\n')
+T("C11", "twin-pair-string-node-helper", F, "", "", edits=[
+    (F, "class ConfigBlock:\n", 'def _string_node(text):\n    return Tree("string", [Token("STRING", text)])\n\n\nclass ConfigBlock:\n'),
+    (F, PAIR_BODY, '        for a, b in value:\n            self.tree.children.append(Tree(option, [_string_node(value_to_string(a)), _string_node(value_to_string(b))]))\n')])
+T("C11", "twin-pair-encoded-in-iterable", F, PAIR_BODY,
+  '        for a, b in ((value_to_string(x), value_to_string(y)) for x, y in value):\n'
+  '            self.tree.children.append(Tree(option, [Tree("string", [Token("STRING", a)]), Tree("string", [Token("STRING", b)])]))\n')
+T("C11", "twin-block-set-option-token-keyword", F, BLOCK_SET_OPTION,
+  '        encoded = value_to_string(value)\n        self.tree.children.append(Tree(option, [Tree("string", [Token("STRING", value=encoded)])]))\n')
+M("C11", "step-token-quoted-without-encoder", F, STEP_APPEND, STEP_APPEND.replace("value_to_string(value)", "f'\"{value}\"'"), "C11.R6")
+M("C11", "termination-token-raw-argument", F, TERM_APPEND, TERM_APPEND.replace("value_to_string(value)", "value"), "C11.R6")
+M("C11", "pair-second-string-unencoded", F, PAIR_BODY, PAIR_BODY.replace('            b = value_to_string(b)\n', ''), "C11.R6")
+M("C11", "block-set-option-percent-quoted", F, BLOCK_SET_OPTION, BLOCK_SET_OPTION.replace("value_to_string(value)", "'\"%s\"' % value"), "C11.R6")
+M("C11", "step-token-encoded-on-one-branch-only", F, STEP_APPEND,
+  '            text = value\n            if isinstance(value, bytes):\n                text = value_to_string(value)\n'
+  '            val.append(Tree("string", [Token("STRING", text)]))\n        self.steps.append(Tree(option, val))\n', "C11.R6")
+# imported part (C12.R1): the encoder's literal denotes exactly the given value - refactored encoders stay silent, other
+# ways than the seeded one of breaking the pin / the slice / the quote escape are caught through C11
+ENC_ESCAPER = "        value = repr(b'\"' + value)[3:-1]\n"
+ENC_BODY = ("    if isinstance(value, bytes):\n"
+            "        # we prepend a double quote to the bytes so repr() always escapes using single quote and strip it afterwards\n"
+            + ENC_ESCAPER +
+            "    if isinstance(value, str):\n"
+            "        # we escape double quotes, because we return it as a double quoted string value\n"
+            "        value = value.replace('\"', '\\\\\"')\n"
+            "        # we don't have to escape single quotes, as we return it as a double quoted value\n"
+            "        value = value.replace(\"\\\\'\", \"'\")\n"
+            "    return f'\"{value}\"'\n")
+ENC_PER_TYPE = ("    if isinstance(value, bytes):\n        text = repr(value + b'\"')[2:-2].replace('\"', '\\\\\"').replace(\"\\\\'\", \"'\")\n"
+                "    elif isinstance(value, str):\n        text = value.replace('\"', '\\\\\"').replace(\"\\\\'\", \"'\")\n    else:\n        text = value\n    return '\"' + text + '\"'\n")
+T("C11", "twin-encoder-pin-suffix-per-type", F, ENC_BODY, ENC_PER_TYPE)
+T("C11", "twin-encoder-escaper-temporaries", F, ENC_ESCAPER, "        pinned = b'\"' + value\n        text = repr(pinned)\n        value = text[3:][:-1]\n")
+M("C11", "encoder-closing-delimiter-kept", F, ENC_ESCAPER, "        value = repr(b'\"' + value)[3:]\n", "C11.R6")
+M("C11", "encoder-pin-not-a-quote", F, ENC_ESCAPER, "        value = repr(b'x' + value)[3:-1]\n", "C11.R6")
+M("C11", "encoder-per-type-suffix-pin-short-slice", F, ENC_BODY, ENC_PER_TYPE.replace("[2:-2]", "[2:-1]"), "C11.R6")
+M("C11", "encoder-per-type-bytes-quote-unescaped", F, ENC_BODY, ENC_PER_TYPE.replace("[2:-2].replace('\"', '\\\\\"')", "[2:-2]"), "C11.R6")
